@@ -14,6 +14,8 @@ RUNS = [
     ("MC_ProfileCache", "SPECIFICATION Spec\nCONSTANTS\n  Clients <- MC_Clients\n  Servers <- MC_Servers\n  Keys <- MC_Keys\n  KeyOf <- MC_KeyOf\n"
      "  SrvOf <- MC_SrvOf\n  MaxDt = 2\n  MaxCrash = 1\n  MaxCalls = 3\n  Variant = \"atomic\"\n  SameKey = TRUE\n  SameServer = TRUE\n"
      "INVARIANT CacheWholeOrAbsent\n", {}),
+    ("MC_Secret", "SPECIFICATION Spec\nCONSTANTS MaxRuns = 1\nINVARIANT AllStatesOK\nVIEW View\n", {}),
+    ("MC_Scan", "SPECIFICATION Spec\nINVARIANT ReferenceIsOK\n", {}),
     ("Purity", "SPECIFICATION PSpec\nCONSTANTS\n  Instances = {\"d1\", \"d2\"}\n  Values = {\"v1\"}\nINVARIANT HistoryIndependent\n", {}),
 ]
 
